@@ -186,7 +186,7 @@ def run(ctx, deep=False):
         "dampers -5..105; each accepted call's message is framed by the real send path (header factory, wrappers, encoder, CRC) and "
         "read by the independent vendor reader: addressed entity, exactly the requested attribute changed to exactly the requested "
         "value, every other attribute keep, to-address 0x80 (0x90 for 0x1F), from 0xB0, check bytes = CRC-16/MODBUS of address..payload. "
-        "distinct = distinct (generation, installation, entity, call, arguments)")
+        "the power / mode calls repeated after every power state the console can report; distinct = distinct (generation, installation, entity, call, arguments)")
     step = 0.05 if thorough else 0.35
     temps = []
     x = -10.0
@@ -228,6 +228,18 @@ def run(ctx, deep=False):
                     calls.append(("zone", z, "set_target_temperature", [repr(t)], st))
                 first = False
             calls.append(("at", 0, "check_for_updates", [], {}))
+            # the same power / mode calls again after the console has reported each power state it can report (AirTouch 5 also off-away,
+            # on-away, sleep): what a call means does not depend on what the unit was last reported to be doing
+            for p_state in ([0, 1] if gen == 4 else [0, 1, 2, 3, 5]):
+                recs = [dict(id=ac["id"], power=p_state, mode=ac.get("mode", 4), fan=0, setpoint=(22 if gen == 4 else 120), temp=235) for ac in inst["acs"]]
+                calls.append(("frame", 0, (consolesim.at4_ac_status if gen == 4 else consolesim.at5_ac_status)(recs), [], {}))
+                for ac in inst["acs"][:2]:
+                    lo, hi = limits(gen, ac)
+                    st = {"id": ac["id"], "min": lo, "max": hi}
+                    for m in list(A.AcMode)[:3]:
+                        calls.append(("ac", ac["id"], "set_mode", [m.name, "1"], st))
+                    for pc in A.AcPowerControl:
+                        calls.append(("ac", ac["id"], "set_power", [pc.name], st))
             ops = consolesim.handshake(gen, inst)
             # the console reports quick timers that differ per AC and between ON and OFF, so "the other timer is kept" is visible
             reported = {ac["id"]: ((7 + k, 5 + ac["id"]), None if k % 2 else (21, 40 + k)) for k, ac in enumerate(inst["acs"])}
@@ -237,6 +249,9 @@ def run(ctx, deep=False):
                 ops.append(consolesim.at5_timer_status([(a, on, off) for a, (on, off) in sorted(reported.items())]))
             base = len(ops)
             for (target, ident, method, args, st) in calls:
+                if target == "frame":
+                    ops.append(method)
+                    continue
                 ops.append(("call at check_for_updates" if target == "at" else "call %s %d %s %s" % (target, ident, method, " ".join(args))).strip())
             api = apiharness.Api(gen)
             with warnings.catch_warnings():
@@ -246,6 +261,8 @@ def run(ctx, deep=False):
                 ctx.tie_broken("C04:console-script", "the scripted console no longer initialises the AirTouch %d object (installation %d): %s" % (gen, ci, out[:base]))
                 continue
             for j, (target, ident, method, args, st) in enumerate(calls):
+                if target == "frame":
+                    continue
                 res = [x for x in out[base + j] if x.startswith("RESULT")]
                 sent = api.op_sent[base + j]
                 ctx.case((gen, ci, target, ident, method, tuple(args)))
